@@ -246,6 +246,10 @@ def run_impl(b, dtype, via, tmp):
         try:
             if via == "bytesio":
                 x = read_signal(io.BytesIO(b), dtype=dt, force_as="sph")
+            elif via == "pipe":       # forward-only stream (no seek / tell), short reads
+                x = read_signal(common.PipeStream(b, short=4097), dtype=dt, force_as="sph")
+            elif via == "offset":     # the file is the second record of a seekable stream
+                x = read_signal(common.offset_stream(b), dtype=dt, force_as="sph")
             else:
                 p = tmp.path()
                 with open(p, "wb") as f:
@@ -329,7 +333,7 @@ EXTRA_LINES = [
     "sample_max -r 0.5",
 ]
 DTYPES = ["none"] * 6 + ["i16", "u8", "i8", "i32", "i64", "f64", "u16", "u32"]
-VIAS = ["path", "path_force", "stream", "bytesio"]
+VIAS = ["path", "path_force", "stream", "bytesio", "pipe", "offset"]
 
 
 def size_line(h):
